@@ -383,10 +383,11 @@ def _v5(ctx: Ctx, f: Func, loop: ast.While, var: str, dec_calls, body_nodes) -> 
                             and isinstance(n.ast.value, ast.Constant) and isinstance(n.ast.value.value, int) and n.ast.value.value > 0]
                 if not idx_step:
                     continue
-                i0 = idx_step[-1]
-                reset_after = any(n.kind == "stmt" and isinstance(n.ast, ast.Assign) and norm(n.ast.targets[0]) == cname for n in path[i0 + 1:])
+                # the counter is not set back anywhere in the iteration, and the iteration passes the counter's raising test - after the step
+                # (`c += 1; if c > 1: raise`) or before it (`if c >= 1: raise; c += 1`): either way the test sees every value the counter takes
+                reset_after = any(n.kind == "stmt" and isinstance(n.ast, ast.Assign) and norm(n.ast.targets[0]) == cname for n in path)
                 tested_after = False
-                for n in path[i0 + 1:]:
+                for n in path:
                     if n.kind == "false" and isinstance(n.ast, ast.Compare) and norm(n.ast.left) == cname and isinstance(n.ast.ops[0], (ast.Gt, ast.GtE)) \
                             and isinstance(n.ast.comparators[0], ast.Constant):
                         te = next((x for x in n.owner.succ if x.kind == "true"), None) if n.owner is not None else None
